@@ -152,6 +152,14 @@ def h2_cases():
         ("function0", "function() { a.done(2) }", lambda a, st: ["a.done(2)"]),
         ("function1", "function(x: int) { a.done(x) }", lambda a, st: [f"a.done({a[0]})"]),
         ("function2", "function(x: int, y: QString) { a.say(y); a.done(x) }", lambda a, st: [f"a.say({S(a[1])})", f"a.done({a[0]})"]),
+        # parameters that are declared but not used: every later one still binds to its own position
+        ("first-unused", "function(x: int, y: QString) { a.say(y) }", lambda a, st: [f"a.say({S(a[1])})"]),
+        ("second-unused", "function(x: int, y: QString) { a.done(x) }", lambda a, st: [f"a.done({a[0]})"]),
+        ("both-unused", "function(x: int, y: QString) { a.done(5) }", lambda a, st: ["a.done(5)"]),
+        ("first-used-in-one-branch-only", "function(x: int, y: QString) { if (y.isEmpty()) { a.done(x) } else { a.say(y) } }",
+         lambda a, st: [f"a.done({a[0]})"] if not a[1] else [f"a.say({S(a[1])})"]),
+        ("first-shadowed-second-used", "function(x: int, y: QString) { let x = 9; a.done(x); a.say(y) }",
+         lambda a, st: ["a.done(9)", f"a.say({S(a[1])})"]),
         ("function2-swapped-names", "function(y: int, x: QString) { a.done(y); a.say(x) }", lambda a, st: [f"a.done({a[0]})", f"a.say({S(a[1])})"]),
         ("arrow1", "(x: int) => a.done(x + 1)", lambda a, st: [f"a.done({a[0] + 1})"]),
         ("arrow-block", "(x: int, y: QString) => { a.done(x); a.say(y + \"!\") }", lambda a, st: [f"a.done({a[0]})", f"a.say({S(a[1] + '!')})"]),
@@ -298,6 +306,9 @@ REJECTS = [
     ("ambiguous-overload", "onAmb: a.act()"), ("ambiguous-overload-with-parameter", "onAmb: function(x: int) {}"),
     ("default-argument-entry-plus-two-real-overloads", "onTri: a.act()"),
     ("default-argument-entry-plus-two-real-overloads-with-parameter", "onTri: function(x: int) {}"),
+    ("slot-with-default-argument-variants", "onOpt: a.act()"), ("slot-with-default-argument-variants-2", "onOpt2: a.act()"),
+    ("slot-with-default-argument-variants-and-parameter", "onOpt: function(x: int) {}"),
+    ("invokable-with-default-argument-variant", "onCalc: a.act()"),
     ("slot-not-signal", "onDone: a.act()"), ("method-not-signal", "onTwice: a.act()"), ("unknown-signal", "onNoSuchSignal: a.act()"),
     ("property-not-signal", "onI: a.act()"), ("too-many-parameters", "onFired: function(x: int) {}"),
     ("too-many-parameters-2", "onFiredWith: function(x: int, y: QString, z: int) {}"),
@@ -311,6 +322,12 @@ REJECTS = [
 
 # handlers inside an object-valued property group: rejected today; if a version accepts them, the
 # connection has to be there
+REAL_NON_SIGNALS = [
+    ("QPushButton", "onAnimateClick: a.act()"), ("QPushButton", "onClick: a.act()"), ("QStatusBar", "onShowMessage: a.act()"),
+    ("QTreeView", "onSortByColumn: a.act()"), ("QWidget", "onGrab: a.act()"), ("QWidget", "onShow: a.act()"),
+    ("QWidget", "onSetFocus: a.act()"), ("QLabel", "onSetNum: a.act()"), ("QWidget", "onRepaint: a.act()"),
+    ("QWidget", "onUpdate: a.act()"), ("QLineEdit", "onSetText: a.act()"), ("QComboBox", "onSetCurrentIndex: a.act()"),
+]
 GROUP_HANDLERS = [
     ("table-header-dotted", "QTableView", "horizontalHeader.onSectionClicked: a.act()", "sectionClicked"),
     ("table-header-braces", "QTableView", "verticalHeader { onSectionClicked: a.act() }", "sectionClicked"),
@@ -437,6 +454,15 @@ def shard_work(shard, nshards, payload):
                 continue
             if vc.accepted(g) or not any(d["kind"] == "error" for d in g["diagnostics"]):
                 t.violation("accepted-a-handler-that-must-be-rejected:" + label, {"source": src})
+        for cls, text in REAL_NON_SIGNALS:
+            src = HEAD + f"    {cls} {{\n        id: t\n        {text}\n    }}\n}}\n"
+            r = vd.job({"id": text, "source": src, "modes": ["generate"]})
+            t.inc("reject_cases")
+            g = r["modes"]["generate"]
+            if r.get("has_syntax_error"):
+                raise vc.MachineryError("document does not parse:\n" + src)
+            if vc.accepted(g) or not any(d["kind"] == "error" for d in g["diagnostics"]):
+                t.violation("accepted-a-handler-that-must-be-rejected:non-signal:" + text.split(":")[0], {"source": src})
         for label, cls, text, signal in GROUP_HANDLERS:
             src = HEAD + f"    {cls} {{\n        id: t\n        {text}\n    }}\n}}\n"
             r = vd.job({"id": label, "source": src, "modes": ["generate"]})
